@@ -100,6 +100,9 @@ def run(ck):
             if k % 7 == 3:      # FASTA header lines longer than the 256-byte name field of the block writers
                 names = ['%03d' % i + gen.rand_seq(rng, fc.NAMECH, rng.choice([252, 253, 254, 255, 258, 300, 400])) for i in range(len(names))]
                 ck.count('names longer than 250')
+            if k % 11 == 4:     # names are data, never format strings: conversion specifications inside them
+                names = ['%s_%s' % (nm[:12], t) for nm, t in zip(names, ['95%identical', '%s%s%s', '100%d', '%n', '5%x_%c', '%%', '%5.2f', '%p%p', '%ld%%'] * 40)]
+                ck.count('names containing % conversions')
             inp = os.path.join(tmp, 'a%d.fa' % k)
             open(inp, 'w').write(gen.fasta(names, rows, rng.choice([60, 60, 13, 1000])))
             # the MSF header line carries the base name of the output file: names near and beyond the 256-byte line buffer
